@@ -2,7 +2,7 @@
 SPECIFICATION GSpec
 CONSTANTS
   Starts = {0, 32766, 65533, 1048573, 16777213}
-  UnitLens = {1, 3, 6}
+  UnitLens = {1, 6}
   Grans = {1, 2, 4}
   LineLens = {2, 5}
   Relocs = {0, 65536}
